@@ -78,16 +78,20 @@ CLAIMED.update({
             "for cell the record of one completed write() call), C02_reachable_invariant, C02_accept_is_one_completed_write, the three refutations for unsafe configurations, "
             "C02_fenced_rejects_torn_read, C02_aba_witness (why the side condition is there: known finding C02-aba, re-found on the real code every run).",
             SHM_NOTE, "DESIGN.md section 6, C02"),
-    "C03": ("Coq: reader-step theorems (cache changes only on accept; accept condition) + computed examples (catch-up, wrap) + schedule correspondence of the real code with "
-            "monotonicity/freshness oracles incl. jumps across the 16-bit wrap and readers that skip >= 16384 publications",
-            "Machine-checked: C03_cache_changes_only_on_accept, C03_accept_condition (for every log and every choice at every step). PARTIAL: monotonicity of publication indices and "
-            "freshness under an idle writer are checked on every explored schedule (model = implementation, oracle on the implementation) but not yet proved for all schedules.",
+    "C03": ("Coq proof over the release/acquire machine (per-reader invariant 'the cached record is the record of the write() call whose even store sits at a position the reader "
+            "can no longer look behind', inductive over every reader step and stable under log growth; lifted to runs by induction over the schedule) + computed examples "
+            "(catch-up, wrap) + schedule correspondence of the real code with monotonicity/freshness oracles incl. jumps across the 16-bit wrap and readers that skip >= 16384 publications",
+            "Machine-checked: C03_monotone_RA and C03_later_call_never_older (same quantification as C02_RA: every safe configuration, every schedule, every release/acquire-legal read "
+            "choice, crashes, restarts, fewer than 32767 write() calls: the publication numbers one reader obtains never decrease), C03_cache_changes_only_on_accept, C03_accept_condition. "
+            "PARTIAL: the second half (a call with an idle writer returns the most recent completed publication, up to the documented 32767 exception) is checked on every explored SC "
+            "schedule (model = implementation, oracle on the implementation, incl. the exception class) and on computed examples, not yet proved for all SC executions.",
             SHM_NOTE, "DESIGN.md section 6, C03"),
     "C04": ("Coq proof of header-validity preservation under every writer step/crash/restart, in-place take-over, adoption of an odd generation, generation never 0 + schedule "
             "correspondence with crash at every access and restart through the real ShmWriter::new",
             "Machine-checked: C04_valid_step, C04_crash_stores_nothing, C04_takeover_in_place (the only store of a restart over a valid segment is version := 1), "
             "C04_adopts_odd_generation, C04_generation_never_zero, computed examples (death during the first publication; death mid-update with an attached reader). "
-            "Clauses (a)/(b) (complete records in order across restarts) are checked on every explored crash schedule, proved only through the C02/C03 partial theorems.",
+            "Clause (a) (only complete records, in publication order, across any crash/restart pattern) is C02_RA + C03_monotone_RA, whose schedules include crash and restart tokens at "
+            "every access; clause (b) (later publications seen without reopening) is checked on every explored crash schedule and in the computed examples.",
             SHM_NOTE + " Crash inside ShmWriter::new/wipe (file creation) is covered by the C16 file corpus, not by the scheduler.", "DESIGN.md section 6, C04"),
     "C18": ("Coq proof (strictly decreasing Z-valued measure over reader steps, for every log and every choice at every step) + measured retry budget on the running code "
             "(stalled writer / continuously publishing writer) + schedule correspondence",
